@@ -474,4 +474,7 @@ def obligations(tier):
                           labels=('timeout', 'classified', 'runs on')))
     for n in (1, 3, 4) if q else (1, 2, 3, 4, 5, 6):
         out.append(Obligation('slice[%d tests]' % n, ob_slice(n), dict(tests=n, slice_arg='d/d with symbolic digits'), labels=('partition', 'rejected')))
+    from harness.c03 import ob_test_argv_setup
+    out.append(Obligation('setup-options', ob_test_argv_setup(), dict(real='TestHarness.get_test_runner / merge_setup_options / SingleTestRunner.__init__ for two tests in a row under --setup', setup='timeout_multiplier 0..3, exe_wrapper or none',
+                          command_line='-t absent | 0..3'), labels=('started',), max_paths=1000000))
     return out
